@@ -1,6 +1,6 @@
 (* C07 -- definitions freeze at first execution; clones are fully isolated.
    Only the property theorems; proofs are in proofs/EngineFacts.v. *)
-From V Require Import lib.Base model.TContext model.TTree model.TEscaper model.Engine spec.EngineSpec proofs.EngineFacts proofs.EngineHistFacts proofs.EngineInvFacts proofs.EngineOkFacts proofs.EngineIsoFacts proofs.EngineOwnFacts proofs.EngineResFacts.
+From V Require Import lib.Base model.TContext model.TTree model.TEscaper model.Engine spec.EngineSpec proofs.EngineFacts proofs.EngineHistFacts proofs.EngineInvFacts proofs.EngineOkFacts proofs.EngineIsoFacts proofs.EngineOwnFacts proofs.EngineResFacts proofs.EngineCloneFacts.
 
 (* in EVERY world: once the set is marked executed, Parse on any of its templates fails and
    changes nothing at all *)
@@ -129,3 +129,18 @@ Theorem C07_foreign_history_keeps_result_classes : forall b ops0 ops h obj,
   forall name, snd (step w' (OExecuteTemplate h name)) = snd (step w (OExecuteTemplate h name)).
 Proof. exact foreign_history_keeps_results. Qed.
 Print Assumptions C07_foreign_history_keeps_result_classes.
+
+(* "cloning a template that has already been executed fails", over histories: once Execute through a handle has
+   answered with an analysis error, or the template it denotes had been executed successfully, Clone through that
+   handle is refused - and changes nothing - after ANY further history of API calls through any handles of any set
+   (t.New only for names its set does not define yet) *)
+Theorem C07_clone_refused_forever : forall ops0 h o ops,
+  let w0 := run_from world0 ops0 in
+  handle w0 h = Some o ->
+  (exists code, snd (step w0 (OExecute h)) = RErrEscape code) \/ h_err (get_tmpl w0 o) = EEscOK ->
+  let w := fst (step w0 (OExecute h)) in
+  no_redefine_hist w ops ->
+  let w' := run_from w ops in
+  step w' (OClone h) = (w', RErrCannotClone).
+Proof. exact clone_refused_forever. Qed.
+Print Assumptions C07_clone_refused_forever.
